@@ -251,6 +251,9 @@ def strip_ref(t):
     return t
 
 
+TRACE_UNSUP = bool(os.environ.get('VERIF_DEBUG'))
+
+
 class Interp:
     STEP_LIMIT = 400000
 
@@ -879,6 +882,8 @@ class Interp:
         if k == 'unop':
             v = s.operand(f, frame, rv[2])
             ty = s.operand_ty(f, rv[2])
+            if ty is None and dest is not None and rv[1] in ('Not', 'Neg'):
+                ty = s.place_ty(f, dest)          # a named constant as operand (`-LIMIT`): Neg / Not keep the type of the destination
             if rv[1] == 'Not':
                 if isinstance(v, bool): return not v
                 if is_sym(v): return z3.Not(v) if z3.is_bool(v) else ~v
@@ -1015,7 +1020,16 @@ class Interp:
                         s.store(f, frame, st[1], s.rvalue(f, frame, st[2], st[1]))
                     elif k == 'call':
                         argv = [s.operand(f, frame, a) for a in st[3]]
-                        r = s.do_call(st[2], argv, f)
+                        if TRACE_UNSUP:
+                            try:
+                                r = s.do_call(st[2], argv, f)
+                            except Unsupported as e:
+                                if not getattr(e, '_noted', False):
+                                    e._noted = True
+                                    e.args = (('%s  [in %s calling %s]' % (e.args[0] if e.args else '', name[-60:], st[2][:160])),)
+                                raise
+                        else:
+                            r = s.do_call(st[2], argv, f)
                         s.store(f, frame, st[1], r)
                         if st[4] is None: raise Unsupported('call without return edge returned: ' + st[2])
                         bb = st[4]; break
